@@ -56,6 +56,7 @@ class Cap:
         self.leaves = []         # (prio, kind, hascb, name)
         self.states = []         # dict(early, accept, eoi, edges=[(target, [(lo,hi)])])
         self.gerrs = []
+        self.csrc = []           # (unicode, ignore_case, regex source) per call of Pattern::compile (hook lines CSRC)
         self.strip = None
         self.stripchk = None
         self.codevalid = None
@@ -204,6 +205,8 @@ def _parse_capture(stdout, n):
         elif t[0] == 'GERR':
             cur.gerrs.append(list(map(int, t[1:])))
             cur.dump.append(ln)
+        elif t[0] == 'CSRC':
+            cur.csrc.append((t[1] == '1', t[2] == '1', bytes.fromhex(t[3]) if len(t) > 3 else b''))
         elif t[0] == 'END':
             cur.dump.append(ln)
     return [caps.get(i) for i in range(len(sources))]
